@@ -139,9 +139,12 @@ func genC04(c *Ctx) {
 			}
 		}
 	}
-	for _, rel := range names {
-		r := realPolAttr("link", "href", rel)
-		c.emit("pol.attr", []string{"link", "href", rel}, r, true, "rel")
+	for _, n := range names {
+		// the listed word itself, and near misses that merely contain it or are contained in it
+		for _, rel := range []string{n, "x" + n, n + "x", "module" + n, "no" + n, "apple-touch-" + n, n + "-mask", n[:len(n)-1], " " + n + " ", n + "\tstylesheet", "stylesheet " + n, n + "\u00a0stylesheet"} {
+			r := realPolAttr("link", "href", rel)
+			c.emit("pol.attr", []string{"link", "href", rel}, r, true, "rel")
+		}
 	}
 	// 2. black box through real templates
 	forms := []string{"dq", "sq", "unq", "attrname", "tagname", "content"}
